@@ -1,4 +1,127 @@
-//! c16 check (under construction)
+//! C16 — path policy languages mean what their specification says.
+//!
+//! Bounded exhaustive enumeration of ACLs, hop-pattern ASTs (three spellings each), hop sequences
+//! and short strings, run through the real parsers / matchers of sciparse and compared with the
+//! independent reference semantics of `refmodel` (statement transcription for ACLs,
+//! Brzozowski derivatives for hop patterns).
+mod acl;
+mod pat;
+mod preds;
+mod refmodel;
+mod replay;
+mod space;
+mod strings;
+mod support;
+
+use refmodel::*;
+use support::*;
+use vpc::json;
+
+/// Hop alphabet H (6): first-hop form (ingress 0), three transit forms differing in ingress / AS /
+/// ISD, last-hop form (egress 0).
+pub const H: [RHop; 6] = [
+    RHop { isd: 1, asn: 1, ing: 0, eg: 1 },
+    RHop { isd: 1, asn: 1, ing: 1, eg: 2 },
+    RHop { isd: 1, asn: 1, ing: 3, eg: 2 },
+    RHop { isd: 1, asn: 2, ing: 1, eg: 2 },
+    RHop { isd: 2, asn: 1, ing: 1, eg: 2 },
+    RHop { isd: 1, asn: 1, ing: 1, eg: 0 },
+];
+/// Predicate alphabet P (8): ISD-only, ISD-AS, AS wildcard, `#i`, `#i,e`, `#0,e`, `#i,0`, full wildcard.
+/// Match sets over H: {0,1,2,3,5} {0,1,2,5} {0,1,2,3,5} {0,1,5} {1} {1,2} {1,5} {all}.
+pub const P: [RPred; 8] = [
+    RPred { isd: 1, asn: None, ifs: RIf::Any },
+    RPred { isd: 1, asn: Some(1), ifs: RIf::Any },
+    RPred { isd: 1, asn: Some(0), ifs: RIf::Any },
+    RPred { isd: 1, asn: Some(1), ifs: RIf::Either(1) },
+    RPred { isd: 1, asn: Some(1), ifs: RIf::Both(1, 2) },
+    RPred { isd: 1, asn: Some(1), ifs: RIf::Both(0, 2) },
+    RPred { isd: 1, asn: Some(1), ifs: RIf::Both(1, 0) },
+    RPred { isd: 0, asn: None, ifs: RIf::Any },
+];
+/// The 4 predicates used in hop patterns: `0`, `1`, `1-1#1`, `1-1#0,2`.
+pub const PP: [RPred; 4] = [P[7], P[0], P[3], P[5]];
+
 pub fn run(args: &vpc::Args) -> ! {
-    vpc::machinery_failure(&format!("property {} not implemented yet", args.prop))
+    vpc::quiet_panics();
+    if let Some(f) = &args.replay {
+        replay::replay(f);
+    }
+    let run = vpc::Run::new(args);
+    let thorough = run.tier == vpc::Tier::Thorough;
+
+    space::oracle_selftest();
+
+    let seq_len = run.tier.pick(4usize, 6usize);
+    let acl_entries = run.tier.pick(2usize, 3usize);
+    let str_len = run.tier.pick(5usize, 6usize);
+    let depth = run.tier.pick(2usize, 3usize);
+    let nodes = run.tier.pick(6usize, 6usize);
+    let patterns = space::pattern_space(thorough, depth, nodes);
+    println!("C16: {} patterns enumerated in {:.1}s", patterns.len(), run.elapsed_s());
+
+    let (bound, counters, classes, distinct_languages) = {
+        let cx = Cx::new(&run, if thorough { 120 } else { 25 });
+        let mut bound = json!({});
+        std::thread::scope(|s| {
+            s.spawn(|| cx.watchdog());
+            preds::check_predicates(&cx);
+            let t = std::time::Instant::now();
+            let acl_b = acl::check_acls(&cx, acl_entries, seq_len);
+            let t_acl = t.elapsed().as_secs_f64();
+            let t = std::time::Instant::now();
+            let pat_b = pat::check_patterns(&cx, &patterns, seq_len);
+            let t_pat = t.elapsed().as_secs_f64();
+            let t = std::time::Instant::now();
+            let pol_b = pat::check_combined(&cx);
+            let str_b = strings::check_strings(&cx, str_len);
+            let t_str = t.elapsed().as_secs_f64();
+            bound = json!({"acl": acl_b, "patterns": pat_b, "combined_policy": pol_b, "strings": str_b,
+                "phase_wall_s": {"acl": t_acl, "patterns": t_pat, "strings_and_combined": t_str}});
+            cx.done.store(true, std::sync::atomic::Ordering::SeqCst);
+        });
+        cx.flush_violations();
+        (bound, cx.counters.snapshot(), cx.class_summary(), cx.distinct.len())
+    };
+
+    let get = |k: &str| counters.iter().find(|(n, _)| *n == k).map(|(_, v)| *v).unwrap_or(0);
+    let evaluations = get("eval.acl") + get("eval.pattern") + get("eval.pred") + get("eval.parse") + get("eval.path") + get("eval.combined");
+    let nontrivial = get("nontrivial.acl") + get("nontrivial.pattern");
+    for (k, v) in &counters {
+        run.outcome_n(k, *v);
+    }
+    let bound_text = format!(
+        "COMPLETED. Alphabets: predicates P(8) / PP(4 in patterns), hops H(6). \
+         ACL: all {} ACLs with <= {acl_entries} entries over {{+,-}} x P x default {{+,-}}, built through the API and printed through AclPolicy::parse, x all {} hop sequences of length <= {seq_len} over H (+ path_allowed on the {} path-shaped ones). \
+         Hop patterns: {} distinct patterns = {}, each in 3 spellings (minimal / fully parenthesised / whitespace-stretched) x all {} hop sequences of length <= {seq_len} over H (spellings 2 and 3 are re-matched on sequences of length <= 3 when their parsed policy is == to the minimal one, else on all). \
+         Strings: all {} strings of length <= {str_len} over `{}` into HopPatternPolicy::parse, AclPolicy::parse, AclEntry::parse, HopPredicate::from_str. \
+         HopPredicate print/re-parse: all 273 values over isd{{0,1,65535}} x asn{{None,0,1,2^32-1,2^32,ff00:0:110,2^48-1}} x interfaces{{Any,Either(i),Both(i,e)}}, i,e in {{0,1,65535}}; predicate matching: 252 predicates x 64 hops.",
+        bound["acl"]["acls"], bound["acl"]["sequences"], bound["acl"]["path_shaped_sequences"],
+        patterns.len(), space::pattern_space_text(thorough, depth, nodes), bound["patterns"]["sequences"],
+        bound["strings"]["strings"], String::from_utf8_lossy(strings::ALPHA),
+    );
+    println!("C16 {bound_text}");
+    println!("C16 evaluations={evaluations} distinct_nontrivial={nontrivial} distinct_languages={distinct_languages}");
+    run.finish(
+        "exploration",
+        json!({
+            "evaluations": evaluations,
+            "evaluations_by_kind": {"acl_matches": get("eval.acl"), "pattern_matches": get("eval.pattern"), "predicate": get("eval.pred"), "parser_calls": get("eval.parse"), "scionpath_route": get("eval.path"), "combined_policy": get("eval.combined")},
+            "distinct_nontrivial": nontrivial,
+            "rule": "every (policy, hop sequence) pair is visited exactly once per route, so pairs are distinct by construction; a pair counts as non-trivial when the verdict is not the default one: ACL pairs in which at least one hop is decided by a matching entry (not by the default action), pattern pairs whose hop sequence is in the language or is a live prefix of it (derivative not the empty language). Measured by counters nontrivial.acl / nontrivial.pattern.",
+            "distinct_languages_up_to_bound": distinct_languages,
+            "exhaustive": true,
+            "bound": bound_text,
+            "spaces": bound,
+            "violation_classes_minimal_witnesses": classes,
+        }),
+        &[
+            "Reference semantics of a predicate: ISD 0, AS 0/absent, interface 0 are wildcards; `#i` = ingress or egress equals i; `#i,e` = both (types.rs doc comments).",
+            "Grammar taken as documented: a pattern is a series of expressions; inside an expression postfix ? + * bind tighter than |, | is left-associative, parentheses group; concatenation exists only at the top level (the parser rejects `(1 2)`).",
+            "An ACL string whose explicit wildcard entry is followed by anything is rejected by the parser as documented ('Wildcard hop predicate must be the last entry'); this is counted as an outcome, not a violation. Such ACLs are still checked when built through the API.",
+            "Hop values have non-zero ISD/AS (a hop with ISD or AS 0 would be treated as matching everything by Isd/Asn::matches; not a realisable hop).",
+            "A hang is detected by a watchdog (wall budget per policy or string block); the real code cannot be single-stepped.",
+            "Divergences between the real parsers and the documented grammar on strings outside that grammar (e.g. accepting a leading '+' in numbers) are reported as samples, not violations: the property only demands termination without panic there.",
+        ],
+    )
 }
